@@ -364,10 +364,57 @@ def float_grid(tier):
     return FnObligation(name, run, [DG + "DataGeneratorODE.generate_time_data", DG + "CubicMeshPDEStatio.generate_data"])
 
 
+def native_refined_in_domain():
+    """a non-stationary generator refined twice on a box whose x and y ranges are disjoint: stores and batches stay inside"""
+    import numpy as np, jax, warnings
+    import jax.numpy as jnp
+    import equinox as eqx
+    from jinns.solver._rar import init_rar, trigger_rar
+    from jinns.data._DataGenerators import CubicMeshPDENonStatio
+    from jinns.loss import LossPDENonStatio, PDENonStatio
+    from jinns.parameters import Params
+    from jinns.utils._pinn import PINN
+
+    class Dyn(PDENonStatio):
+        def equation(self, t, x, u, params):
+            return jnp.sin(9.0 * t) * jnp.cos(5.0 * x[0:1]) + x[1:2]
+
+    class M(eqx.Module):
+        w: jax.Array
+        def __call__(self, x):
+            return jnp.sum(self.w * x)[None]
+    u = PINN(mlp=M(jnp.ones(3)), slice_solution=jnp.s_[0:1], eq_type="nonstatio_PDE", input_transform=lambda i, p: i, output_transform=lambda i, o, p: o)
+    params = Params(nn_params=u.params, eq_params={})
+    with warnings.catch_warnings():
+        warnings.simplefilter("ignore")
+        loss = LossPDENonStatio(u=u, dynamic_loss=Dyn(), params=params)
+    mn, mx = (-1.0, 2.0), (1.0, 5.0)
+    rp = {"start_iter": 0, "update_every": 1, "sample_size_times": 4, "selected_sample_size_times": 2, "sample_size_omega": 6, "selected_sample_size_omega": 3}
+    g = CubicMeshPDENonStatio(key=jax.random.PRNGKey(1), n=14, nb=None, nt=12, omega_batch_size=2, omega_border_batch_size=None, temporal_batch_size=2,
+                              dim=2, min_pts=mn, max_pts=mx, tmin=3.0, tmax=4.0, rar_parameters=rp, n_start=4, nt_start=4)
+    g, ft, ff = init_rar(g)
+    for i in range(2):
+        _, _, g = trigger_rar(i, loss, params, g, ft, ff)
+        om, tm = np.asarray(g.omega), np.asarray(g.times)
+        for cc in range(2):
+            if om[:, cc].min() < mn[cc] or om[:, cc].max() > mx[cc]:
+                return [f"after refinement step {i + 1} on the box {mn}-{mx}: stored points leave the box in coordinate {cc}: "
+                        f"range [{om[:, cc].min():.4f}, {om[:, cc].max():.4f}]"]
+        if tm.min() < 3.0 or tm.max() > 4.0:
+            return [f"after refinement step {i + 1}: stored times leave [3, 4]"]
+    return None
+
+
 def native_wf():
     import numpy as np, jax
     from jinns.data._DataGenerators import CubicMeshPDEStatio, CubicMeshPDENonStatio
     msgs = []
+    try:
+        m_ = native_refined_in_domain()
+        if m_:
+            return m_
+    except Exception:
+        pass
     # 1-D border = exactly the pair of end points (end points that are not representable in a narrower float type)
     for (a_, b_) in ((0.7, 1.1), (-0.3, 0.1)):
         g = CubicMeshPDEStatio(key=jax.random.PRNGKey(0), n=5, nb=2, omega_batch_size=2, omega_border_batch_size=1, dim=1,
@@ -477,5 +524,13 @@ def obligations(tier):
                 o = c09.consumer_ob(which, rar, cl)
                 o.name = o.name.replace("C09/", "C08/any_state/")
                 obs.append(o)
+    # a refinement (RAR) step writes candidates into the pre-allocated rows: they are drawn from the generator's own domain
+    # and stored unchanged (the C17 contracts of the step, reported here: the stores stay inside the domain)
+    from contracts import c16
+    for kind in ("ODE", "statio", "nonstatio"):
+        for cl in ("candidates_in_domain", "adds_highest_residual_candidates"):
+            o = c16.ob_step_true(kind, cl)
+            o.name = o.name.replace("C17/", "C08/after_refinement/")
+            obs.append(o)
     obs += [float_grid(tier), native_ob()]
     return obs
